@@ -22,12 +22,12 @@ ASSUMPTIONS = [
 
 def plan(tier, seed):
   q = tier == "quick"
-  return [{"hashseed": (seed * 59 + i) % 1051, "part": i, "nparts": 16, "designs": 16 if q else 300} for i in range(16)]
+  return [{"hashseed": (seed * 59 + i) % 1051, "part": i, "nparts": 16, "designs": 16 if q else 300, "params": 6 if q else 60} for i in range(16)]
 
 
 def thresholds(tier):
   t = {"programs": 250, "cycles_cosimulated": 5000, "driver_sets_analysed": 3000, "corpus_cases_cosimulated": 55,
-       "stdlib_components_cosimulated": 60, "generated_designs_cosimulated": 150, "svsim_lrm_examples_ok": 22,
+       "stdlib_components_cosimulated": 60, "generated_designs_cosimulated": 150, "param_designs_cosimulated": 60, "svsim_lrm_examples_ok": 22,
        "form:always_ff": 50, "form:for": 5, "form:size cast N'(e)": 20, "form:replication": 50, "form:typedef struct packed": 50,
        "form:module instance": 50, "form:localparam": 1, "form:indexed part select +:": 1, "form:?:": 50}
   if tier == "thorough":
@@ -100,6 +100,8 @@ def literal_branch_ifexp_meets_int_semantics(src):
 
 def mech(kind, w, design=None):
   src = w.get("source", "")
+  if kind == "emitted-text-does-not-parse-or-elaborate" and re.search(r"\d+ ' d - \d+", w.get("error", "")):
+    return "negative-free-variable-emitted-as-unsigned-literal"
   if kind == "output-differs-from-pymtl-simulation":
     if literal_branch_ifexp_meets_int_semantics(src): return "ifexp-with-literal-branch-evaluates-to-python-int-in-simulation"
     if const_only_nonring_subexpr(src): return "const-subexpression-narrowed-before-nonring-operator"
@@ -127,6 +129,15 @@ class Top(Component):
     def up():
       s.o @= (K + (s.a if s.c else 15)) >> 1
 """, "Top"),
+ "F-T7": ("""from pymtl3 import *
+NEG = -3
+class Top(Component):
+  def construct(s):
+    s.a = InPort(4); s.c = InPort(1); s.o = OutPort(4)
+    @update
+    def up():
+      s.o @= s.a if s.c else NEG
+""", "Top"),
  "F-T3": ("""from pymtl3 import *
 def mk(k):
   class Inner(Component):
@@ -151,6 +162,7 @@ def run_shard(sh):
     return
   T.corpus_stream(sh, "sv", part, nparts, mech)
   T.stdlib_stream(sh, "sv", part, nparts, mech)
+  T.param_stream(sh, "sv", sh.params.get("params", 6), mech)
   T.specgen_stream(sh, "sv", sh.params["designs"], knobs, mech, "gen")
   if part == 0:
     for name, (src, top) in PROBES.items():
